@@ -232,6 +232,32 @@ CLAIMED = {
 
 NOT_YET = {}
 
+# what later rounds added to the workloads / observation points (DESIGN.md sections 8 and 11)
+ADDENDA = {
+    "C01": " A recorder around the realigner checks that aldy's indel support table equals the realigner's own counts; "
+           "twin insertions, homozygous deletions and tied structures are planted.",
+    "C03": " Generated databases whose only structural alleles are right fusions, left fusions or the deletion, and "
+           "databases without any, are driven through estimate_cn.",
+    "C04": " The evidence handed to the model is compared with an independent recomputation of the documented noise "
+           "filter; structures naming the deletion explicitly, weak spurious support, companions and the novel switch "
+           "are part of the workload.",
+    "C05": " One-sided error terms, bounded and integer slack variables and staged model construction (a peek solve "
+           "before the model is complete) are part of the generated models.",
+    "C07": " Neutral regions shorter than a read and on another contig at coordinates overlapping the gene's.",
+    "C10": " The real genotype() is also driven with given stage results (replaced stage functions returning well-formed "
+           "solutions with drawn, close scores) so that selection, rescaling and ordering see rare combinations.",
+    "C13": " Uncatalogued exonic substitutions with the novel switch; VCF input per build.",
+    "C14": " Repeat-call clause on one evidence object and on a sample loaded afresh.",
+    "C15": " Thin sites, indel tables, explicit deletion structures, weak qualifying support, deep low-quality clutter, "
+           "and read-level pairs (low-quality reads of another genotype added to a BAM).",
+    "C16": " Deletion records whose deleted bases differ from the RefSeq, uncatalogued MNP records starting on a "
+           "catalogued SNP site, user structure with VCF input.",
+    "C17": " Profile files with their own options (including falsy values), minimum depths above the sample's, "
+           "two-gene archives and the shipped NA10860 BAM in both tiers.",
+    "C19": " Reads only inside the padding of the indexed query and on a contig whose name ends with the gene's "
+           "(unindexed text SAM).",
+}
+
 
 def main():
     props = [json.loads(l) for l in open(os.path.join(HERE, "properties.jsonl"))]
@@ -247,6 +273,7 @@ def main():
             os.path.join(HERE, "aldymon", "props", pid.lower() + ".py")
         ):
             tech, text, note, ref = CLAIMED[pid]
+            text += ADDENDA.get(pid, "")
             checks.append(
                 {
                     "property_id": pid,
